@@ -7,10 +7,10 @@ import hashlib, json, os, re, shutil, subprocess, sys, time
 
 VERIF = os.path.dirname(os.path.dirname(os.path.abspath(__file__)))
 REPO = os.environ.get("VERIF_REPO", "/repo")
-WORK = os.path.join(VERIF, ".work")
+WORK = os.environ.get("VERIF_WORK") or os.path.join(VERIF, ".work")
 SPEC = os.path.join(VERIF, "spec")
 HARNESS = os.path.join(VERIF, "harness")
-EVID = os.path.join(VERIF, "evidence") if not os.environ.get("VERIF_EVID_SUFFIX") else os.path.join(VERIF, ".work", "evidence" + os.environ["VERIF_EVID_SUFFIX"])
+EVID = os.path.join(VERIF, "evidence") if not os.environ.get("VERIF_EVID_SUFFIX") else os.path.join(WORK, "evidence" + os.environ["VERIF_EVID_SUFFIX"])
 REPLAYS = os.path.join(EVID, "replays")
 TLA_JAR = "/opt/veriftools/tla/tla2tools.jar:/opt/veriftools/tla/CommunityModules-deps.jar"
 
